@@ -109,7 +109,8 @@ func ExecPaced(c CasePaced) *vkit.Result {
 		// a small send buffer too: a wave of 64 KiB payloads then really waits for the reader
 		_ = tc.SetWriteBuffer(16 << 10)
 	}
-	r := &sessRun{conn: &countingConn{Conn: srv}, peer: cli, exited: make(chan struct{}), peerDone: make(chan struct{})}
+	fl := newFlags()
+	r := &sessRun{conn: newConn(srv, false, c.Transport != "tcp", fl, 0), peer: cli, exited: make(chan struct{}), peerDone: make(chan struct{})}
 	r.spec.PeerReads = true
 	if c.Transport == "tcp" {
 		r.sess = stcp.NewSession(mgr, srv)
@@ -120,13 +121,14 @@ func ExecPaced(c CasePaced) *vkit.Result {
 	h.state[r.sess] = r
 	h.mu.Unlock()
 	defer func() {
-		closeNoWait(r.sess)
+		r.localClose(200 * time.Millisecond)
 		r.peer.Close()
 		r.conn.Conn.Close()
 		waitFor(func() bool { return len(sessionGoroutines()) == 0 }, patience)
 		afterCase(res)
 	}()
 	r.sess.Start()
+	r.started.Store(true)
 
 	// the peer reads wave by wave, each time when the harness says so; the last wave is read to the end
 	resume := make(chan int)        // number of bytes to read; -1: to the end
@@ -194,7 +196,7 @@ func ExecPaced(c CasePaced) *vkit.Result {
 			n += sz
 		}
 		if last {
-			closeBounded(r.sess, patience)
+			r.localClose(patience)
 		}
 		time.Sleep(share(w.PausePct))
 		if wi > 0 && sent.Sub(lastWrite) < W && time.Since(lastWrite) > W && w.PausePct > 0 {
@@ -204,9 +206,9 @@ func ExecPaced(c CasePaced) *vkit.Result {
 		lastWrite = sent
 		if last {
 			resume <- -1
-			select {
-			case <-r.peerDone:
-			case <-time.After(allTimersFired):
+			if f, ok := waitIntact(res, fl, []*sessRun{r}, r.peerDone, allTimersFired); f != nil {
+				return f
+			} else if !ok {
 				return res.Failf("peer-sees-no-end", "the session was closed locally after the last wave but the reading peer never saw EOF or an error")
 			}
 		} else {
@@ -265,6 +267,9 @@ func ExecPaced(c CasePaced) *vkit.Result {
 	got, want := r.peerGot.Bytes(), bytes.Join(r.accepted, nil)
 	if !bytes.HasPrefix(want, got) {
 		return res.Failf("bytes-corrupted", "the peer received %d bytes that are not a prefix of the %d accepted bytes", len(got), len(want))
+	}
+	if f := fl.failed(res); f != nil {
+		return f
 	}
 	if !bytes.Equal(got, want) {
 		return res.Failf("flush-before-close/paced", "only a local Close ended the session and the peer read on within the write timeout (%v) after every wave, but it received %d of the %d bytes accepted by Send (its read ended with: %v)", W, len(got), len(want), r.peerErr)
